@@ -16,6 +16,7 @@
                    request removed; aggregation requires equal endpoints, transponder, mode and constraints.
  Rm memo          : every memoisation construct in the functions behind this property is keyed by everything it reads.
  Rp presence      : optional numeric fields are tested with `is None` / membership, never by truthiness (0 is a value).
+ R7 carried       : the CSV writer carries no local from one response row to the next (must-definition dataflow).
 """
 import ast
 
@@ -369,6 +370,13 @@ def r6_own_objects(ctx):
 
 
 
+def r7_carried(ctx):
+    """R7: the CSV writer handles one response per iteration and carries no local from one row to the next"""
+    from ..carried import carried_rule
+    carried_rule(ctx, 'R7.carried', {('gnpy.topology.request', 'jsontocsv')}, 'a row would show figures of the response before it')
+    ctx.need('R7.carried', 1)
+
+
 from ..memo import rule_for as _memo_rule
 
 RULES_MEMO = ('Rm.memo', _memo_rule('C19', 'a result would report figures of another request'))
@@ -379,4 +387,4 @@ from ..presence import rule_for as _presence_rule
 RULES_PRESENCE = ('Rp.presence', _presence_rule('C19', 'a legal zero would be reported as missing'))
 
 RULES = [('R6.own-objects', r6_own_objects), ('R1.metrics', r1_metrics), ('R2.directions', r2_directions), ('R3.dispatch', r3_dispatch), ('R4.csv', r4_csv),
-         ('R5.aggregation', r5_aggregation), RULES_MEMO, RULES_PRESENCE]
+         ('R5.aggregation', r5_aggregation), RULES_MEMO, RULES_PRESENCE, ('R7.carried', r7_carried)]
